@@ -677,8 +677,10 @@ class SR:
             return NAN
         if _is_num(o):
             if o == 0:
+                # x/0: NumPy gives inf/nan and goes on; so does the symbolic run (the non-finite value makes every
+                # assertion it reaches false on this path, and the definedness obligation is unconditional)
                 CTX.obligation('div', z3.BoolVal(True), 'division by concrete zero')
-                raise SymnpUnsupported("division by concrete zero")
+                return NAN
             if o == 1:
                 return self
             return SR(self.t / lift(o), _lin_div(self.lin, Lin.of(o)), self._scaled_fac(o), _fop(_np.divide, self, o))
